@@ -29,6 +29,8 @@ def run(rep, tier):
     rep.rule("R-C12-types", "register_callback instantiates the interceptor with the unwrapped signature of the function it was given")
     backends = ["model32", "noop", "dylib", "noop_tls", "dylib_tls"] if tier == "quick" else ["model32", "model32gi", "noop", "dylib", "noop_tls", "dylib_tls", "noop_trans", "model32_trans"]
     dbs = facts.load_core(backends, ["INVOKE"], thorough=(tier == "thorough"))
+    # generated callback family (tools/gen_sigs.py): 0..8 tainted / tainted_opaque parameters of every kind, every return kind
+    dbs += facts.load_sigs(["model32", "noop"] if tier == "quick" else ["model32", "model32gi", "noop", "dylib"], thorough=(tier == "thorough"))
     n = {}
 
     def cnt(k):
@@ -58,7 +60,7 @@ def run(rep, tier):
                     check_ctx(rep, db, f, inst); cnt("ctx")
             except Inconclusive as ex:
                 rep.inconclusive("R-C12", site(f), str(ex), inst)
-    floors = {"interceptor": 15, "types": 15, "reg": 8, "tramp": 8, "getexec": 4, "unreg": 4, "ctx": 20}
+    floors = {"interceptor": 30, "types": 30, "reg": 8, "tramp": 8, "getexec": 4, "unreg": 4, "ctx": 20}
     for k, v in floors.items():
         rep.require(n.get(k, 0) >= v, "only %d instances for rule group '%s' (floor %d)" % (n.get(k, 0), k, v))
     rep.extra["instances"] = n
